@@ -553,7 +553,7 @@ let cmd_summary () =
 (* ---------- coqcases: the same computations as `decode` / `bitread` / `frames`, but each answer rendered as a Gallina term inside an
    `Example ... Proof. vm_compute. reflexivity. Qed.`: coqc then evaluates the SAME function inside Coq (the definitions the theorems are about)
    and must get the same answer - a per-run check of the extraction and of this driver's plumbing.
-   input lines:  decode <hdr> <type> <hex|->   |   bitread <hex|-> <w1,w2,..|->   |   frames <hex|-> *)
+   input lines:  decode <hdr> <type> <hex|->   |   bitread <hex|-> <w1,w2,..|->   |   frames <hex|->   |   write <hdr> <type> <value> *)
 let g_bytes (l : byte list) = "[" ^ String.concat "; " (List.map (fun b -> Printf.sprintf "x%02x" (int_of_byte b)) l) ^ "]"
 let g_nat i = Printf.sprintf "%d%%nat" i
 let g_n (x : n) = string_of_n x ^ "%N"
@@ -595,6 +595,11 @@ let cmd_coqcases () =
                    | Err e -> "Err " ^ g_err e) in
         Printf.printf "Example case_%d : (match rd_gets [%s] (rd_init %s) with Ok (vs, r) => Ok (vs, rd_rest r, rd_bytes_read r) | Err e => Err e end) = %s. Proof. vm_compute. reflexivity. Qed.\n"
           !k (String.concat "; " (List.map (fun w -> g_nat (int_of_nat w)) wl)) (g_bytes bs) rhs
+    | ["write"; hdr; t; vs] ->
+        let ty = parse_type t and h = nat_of_int (int_of_string hdr) in
+        let v = parse_value ty vs in
+        let rhs = (match lib_write h ty v with Ok bs -> "Ok " ^ g_bytes bs | Err e -> "Err " ^ g_err e) in
+        Printf.printf "Example case_%d : lib_write %s %s %s = %s. Proof. vm_compute. reflexivity. Qed.\n" !k (g_nat (int_of_nat h)) (g_type ty) (g_value v) rhs
     | ["frames"; hx] ->
         let bs = bytes_of_string (unhex (if hx = "-" then "" else hx)) in
         let (ps, t) = frames bs in
